@@ -23,7 +23,7 @@ def _report(c, cond, label, sig=None, syms=None):
     return ok
 
 
-def step_job(interp, c, case):
+def step_job(interp, c, case, rules=False):
     S, R, T, ci = case
     install_uniform(interp)
     sim_mod = interp.load("bioscrape.simulator")
@@ -36,6 +36,8 @@ def step_job(interp, c, case):
     dt = c.real("dt", lo=0, lo_strict=True)
     c.assume(t0 <= grid[0])
     sim = AbsSim(c, S, R, x0, U, D, t0, dt)
+    if rules:
+        sim.havoc_rules()          # rules are an arbitrary map of the state
     simulator = sim_mod.ns["SSASimulator"]()
     fr, w, post = run_prologue(interp, fi, simulator, [sim, grid])
     L = fr.locals
@@ -83,10 +85,10 @@ def step_job(interp, c, case):
     _report(c, ok_order, "step: rules are applied once, then the propensities are computed once")
     if not ok_order:
         return
-    _, rx, rt, rrs, _ = log[0]
+    _, rx, rt, rrs, _, x_eff = log[0]
     _, px, pt, a, _ = log[1]
     _report(c, s_and(rt == t, pt == t, rrs == rs, *[rx[i] == x_pre[i] for i in range(S)],
-                     *[px[i] == x_pre[i] for i in range(S)]),
+                     *[px[i] == x_eff[i] for i in range(S)]),
             "step: rules and propensities see the current state and time")
     Lam = 0
     for aj in a:
@@ -114,7 +116,7 @@ def step_job(interp, c, case):
     for r in range(T):
         for i in range(S):
             if ci <= r < ci_new:
-                post_ok.append(L["c_results"][r, i] == x_pre[i])
+                post_ok.append(L["c_results"][r, i] == x_eff[i])
             else:
                 post_ok.append(L["c_results"][r, i] == res0[r, i])
     if fired:
@@ -132,10 +134,10 @@ def step_job(interp, c, case):
             return
         post_ok.append(L["reaction_choice"] == j)
         post_ok.append(a[j] > 0)
-        post_ok += [L["c_current_state"][i] == x_pre[i] + U[i, j] + D[i, j] for i in range(S)]
+        post_ok += [L["c_current_state"][i] == x_eff[i] + U[i, j] + D[i, j] for i in range(S)]
     else:
         post_ok.append(len(draws) == used)
-        post_ok += [L["c_current_state"][i] == x_pre[i] for i in range(S)]
+        post_ok += [L["c_current_state"][i] == x_eff[i] for i in range(S)]
     _report(c, s_and(*post_ok),
             "step: waiting time -ln(u1)/Lambda capped at the next grid time; reaction j chosen iff "
             "sum_{i<j} a_i < u2*Lambda <= sum_{i<=j} a_i; rows T[k] <= t' record the pre-update state; "
@@ -147,6 +149,13 @@ def step_job(interp, c, case):
         inv.append(grid[ci_new - 1] <= L["current_time"])
     inv.append(L["current_time"] >= t)
     inv.append(s_or(ci_new > ci, fired))
+    _report(c, (L["rule_step"] == 1) == (ci_new > ci),
+            "dt-rule: the step flag is raised exactly by an iteration that reports a row, so rules with frequency dt run once "
+            "per reported step however many reactions fire in between", "ssa dt-rule schedule")
+    if ci_new < T:
+        _report(c, L["current_time"] < grid[ci_new],
+                "schedule: the clock equals a grid time only after that row is final, so a rule scheduled for T[k] cannot "
+                "change row k or earlier rows", "ssa scheduled-rule ordering")
     _report(c, s_and(*inv), "step: invariant preserved (clock between the surrounding grid times, never "
                             "backwards) and progress (a row is written or a reaction fires)", "ssa invariant")
     # ---- exit obligation
